@@ -411,7 +411,8 @@ func (h *c17Host) serve(c net.Conn, hmode string, hid c17Identity) {
 //               SET_PROTOCOL_VERSION (sv=n: the host claims LLRP 1.0.1, none is sent), GET_READER_CONFIG,
 //               GET_READER_CAPABILITIES, CLOSE_CONNECTION:  <ms>+ a positive answer that many ms after the request
 //               (h: after accept), <ms>- a negative one (error status; h: a refused ConnectionAttemptEvent),
-//               - no answer at all
+//               - no answer at all, <ms>~ a TRICKLED answer: the header of the positive answer, announcing 64 KiB more
+//               than the real payload, and the real payload at once, then one byte every <ms> ms, never complete
 //   id=<0|1>    a positive GET_READER_CONFIG answer carries the Identification
 //   xo=<0|1>    a negative answer to CLOSE_CONNECTION is an ERROR_MESSAGE (1) / a CLOSE_CONNECTION_RESPONSE with
 //               an error status (0)
@@ -431,6 +432,9 @@ type c17Answer struct {
 	has   bool
 	delay time.Duration
 	ok    bool
+	// > 0: the answer is TRICKLED: header (announcing 64 KiB more than the real payload) and real payload at once,
+	// then one byte every trickle, never complete
+	trickle time.Duration
 }
 
 type c17Script struct {
@@ -448,12 +452,15 @@ func c17ParseAnswer(s string) (c17Answer, error) {
 	if s == "-" {
 		return c17Answer{}, nil
 	}
-	if len(s) < 2 || (s[len(s)-1] != '+' && s[len(s)-1] != '-') {
+	if len(s) < 2 || (s[len(s)-1] != '+' && s[len(s)-1] != '-' && s[len(s)-1] != '~') {
 		return c17Answer{}, fmt.Errorf("bad answer %q", s)
 	}
 	ms, err := strconv.Atoi(s[:len(s)-1])
 	if err != nil {
 		return c17Answer{}, err
+	}
+	if s[len(s)-1] == '~' {
+		return c17Answer{trickle: time.Duration(ms) * time.Millisecond}, nil
 	}
 	return c17Answer{has: true, delay: time.Duration(ms) * time.Millisecond, ok: s[len(s)-1] == '+'}, nil
 }
@@ -578,6 +585,24 @@ func (h *c17Host) serveScript(c net.Conn, sc *c17Script, hid c17Identity) {
 			}
 		}()
 	}
+	// the same with the bytes spaced as the script says and the header delivered at once
+	tricklePayload := func(frame []byte, gap time.Duration) {
+		f := append([]byte{}, frame...)
+		binary.BigEndian.PutUint32(f[2:], uint32(len(f)+65536))
+		write(f)
+		go func() {
+			for {
+				tm := time.NewTimer(gap)
+				select {
+				case <-tm.C:
+					write([]byte{0})
+				case <-stop:
+					tm.Stop()
+					return
+				}
+			}
+		}()
+	}
 	helloFrame := func(st int) []byte {
 		return c17Frame(1, c17MsgReaderEventNotification, 1,
 			c17TLV(c17ParReaderEventNotificationData,
@@ -585,7 +610,9 @@ func (h *c17Host) serveScript(c net.Conn, sc *c17Script, hid c17Identity) {
 				c17TLV(c17ParConnectionAttemptEvent, c17U16(st))))
 	}
 	helloSent := make(chan struct{})
-	if !sc.hello.has && strings.Contains(sc.trickle, "h") {
+	if sc.hello.trickle > 0 {
+		tricklePayload(helloFrame(0), sc.hello.trickle)
+	} else if !sc.hello.has && strings.Contains(sc.trickle, "h") {
 		trickle(helloFrame(0))
 	}
 	if sc.hello.has {
@@ -650,7 +677,9 @@ func (h *c17Host) serveScript(c net.Conn, sc *c17Script, hid c17Identity) {
 	}
 	answer := func(stage string, a c17Answer, pos, neg []byte, then func()) {
 		if !a.has {
-			if strings.Contains(sc.trickle, stage) {
+			if a.trickle > 0 {
+				tricklePayload(pos, a.trickle)
+			} else if strings.Contains(sc.trickle, stage) {
 				trickle(pos)
 			}
 			return
@@ -743,143 +772,19 @@ func c17Unhex(s string) []byte {
 	return b
 }
 
-// c17Panic is the error class of a probe that panicked on the calling goroutine (recovered here, so that the
-// harness survives and the panic is attributed to the scenario that caused it)
-type c17Panic struct{ msg string }
+// Probe-level requests ("name", "probe") call probe() directly and live in c17_probe_test.go, which registers them here.
+// That file is compiled separately from the judgement of whole runs: if probe()'s signature changes it alone fails to
+// build, and runs through autoDiscover / Driver.Discover (entry points that did not change) are still judged.
+var (
+	c17NameFn  func(f []string, h *c17Host) string
+	c17ProbeFn func(f []string) string
+)
 
-func (p c17Panic) Error() string { return p.msg }
-
-// c17SafeProbe calls probe under recover. A panic in a goroutine that the code under test spawns cannot be
-// recovered here: it kills the process, and the check then re-runs the requests in supervised child processes.
-func c17SafeProbe(host, port string, timeout time.Duration) (info *discoveryInfo, err error) {
-	defer func() {
-		if r := recover(); r != nil {
-			info, err = nil, c17Panic{strings.Join(strings.Fields(fmt.Sprint(r)), " ")}
-		}
-	}()
-	return probe(host, port, timeout)
-}
-
-// "name <vendor> <model> <idtype> <ridhex|-> <fwhex|-> <caps:0|1> <ident:0|1> <mode>"
-// answer: "ok name=<hex> v=<n> m=<n> fw=<hex> dd=<hex> pen=<s> model=<s> ddfw=<hex> host=<0|1>" | "err" | "blocked"
-//         | "panic <message>"
-func c17Name(f []string, h *c17Host) string {
-	v, _ := strconv.ParseUint(f[1], 10, 32)
-	m, _ := strconv.ParseUint(f[2], 10, 32)
-	it, _ := strconv.ParseUint(f[3], 10, 8)
-	id := c17Identity{hasCaps: f[6] == "1", vendor: uint32(v), model: uint32(m), fw: c17Unhex(f[5]),
-		hasIdent: f[7] == "1", idType: byte(it), rid: c17Unhex(f[4])}
-	mode := "correct"
-	if len(f) > 8 {
-		mode = f[8]
-	}
-	if mode == "correct-nosens" {
-		id.noSens = true
-	}
-	h.setScript(mode, id)
-	type res struct {
-		info *discoveryInfo
-		err  error
-	}
-	ch := make(chan res, 1)
-	port := h.port()
-	go func() {
-		info, err := c17SafeProbe("127.0.0.1", port, 2*time.Second)
-		ch <- res{info, err}
-	}()
-	select {
-	case r := <-ch:
-		if p, ok := r.err.(c17Panic); ok {
-			return "panic " + p.msg
-		}
-		if r.err != nil || r.info == nil {
-			return "err"
-		}
-		dd := newDiscoveredDevice(r.info)
-		md := dd.Protocols["metadata"]
-		tcp := dd.Protocols["tcp"]
-		hostOK := 0
-		if r.info.host == "127.0.0.1" && r.info.port == port && tcp["host"] == "127.0.0.1" && tcp["port"] == port {
-			hostOK = 1
-		}
-		return fmt.Sprintf("ok name=%s v=%d m=%d fw=%s dd=%s pen=%v model=%v ddfw=%s host=%d",
-			c17Hex([]byte(r.info.deviceName)), r.info.vendor, r.info.model, c17Hex([]byte(r.info.fwVersion)),
-			c17Hex([]byte(dd.Name)), md["vendorPEN"], md["model"], c17Hex([]byte(fmt.Sprint(md["fwVersion"]))), hostOK)
-	case <-time.After(40 * time.Second):
-		return "blocked"
-	}
-}
-
-// "probe <mode> <timeout_ms> <budget_ms>"  (mode "refuse": nothing listens)
-// answer: "returned <ok|err> <elapsed_ms> accepts=<n>" | "blocked accepts=<n> released=<true|false>"
-func c17Probe(f []string) string {
-	mode := f[1]
-	to, _ := strconv.Atoi(f[2])
-	budget, _ := strconv.Atoi(f[3])
-	id := c17Identity{hasCaps: true, vendor: 25882, model: 2001002, fw: []byte("5.14.0.240"),
-		hasIdent: true, idType: 0, rid: []byte{0, 0x16, 0x25, 0x12, 0x34, 0x56}}
-	var h *c17Host
-	var port string
-	if mode == "refuse" {
-		// find a port nobody listens on: open and close a listener
-		ln, err := net.Listen("tcp4", "127.0.0.1:0")
-		if err != nil {
-			return "harness-error listen " + err.Error()
-		}
-		_, port, _ = net.SplitHostPort(ln.Addr().String())
-		ln.Close()
-	} else {
-		var err error
-		h, err = c17NewHost("127.0.0.1:0", mode, id)
-		if err != nil {
-			return "harness-error listen " + err.Error()
-		}
-		port = h.port()
-	}
-	type res struct {
-		info *discoveryInfo
-		err  error
-	}
-	ch := make(chan res, 1)
-	t0 := time.Now()
-	go func() {
-		info, err := c17SafeProbe("127.0.0.1", port, time.Duration(to)*time.Millisecond)
-		ch <- res{info, err}
-	}()
-	acc := func() int {
-		if h == nil {
-			return 0
-		}
-		return h.nAccepts()
-	}
-	select {
-	case r := <-ch:
-		el := time.Since(t0).Milliseconds()
-		if h != nil {
-			h.Close()
-		}
-		if p, ok := r.err.(c17Panic); ok {
-			return "panic " + p.msg
-		}
-		cls := "err"
-		if r.err == nil && r.info != nil {
-			cls = "ok"
-		}
-		return fmt.Sprintf("returned %s %d accepts=%d", cls, el, acc())
-	case <-time.After(time.Duration(budget) * time.Millisecond):
-		// watchdog: the probe is still blocked. Release it by closing the host's side.
-		n := acc()
-		if h != nil {
-			h.Close()
-		}
-		released := false
-		select {
-		case <-ch:
-			released = true
-		case <-time.After(25 * time.Second):
-		}
-		return fmt.Sprintf("blocked accepts=%d released=%v", n, released)
-	}
+// one reported device: <name hex>@<host>@<vendorPEN>@<model>@<firmware hex>
+func c17Reported(d dsModels.DiscoveredDevice) string {
+	md := d.Protocols["metadata"]
+	return c17Hex([]byte(d.Name)) + "@" + fmt.Sprint(d.Protocols["tcp"]["host"]) + "@" + fmt.Sprint(md["vendorPEN"]) + "@" +
+		fmt.Sprint(md["model"]) + "@" + c17Hex([]byte(fmt.Sprint(md["fwVersion"])))
 }
 
 // "run <net/prefix> <asyncLimit> <timeout_ms> <max_ms> <budget_ms> <host>;<host>;... <dev>;<dev>;...|-"
@@ -888,7 +793,7 @@ func c17Probe(f []string) string {
 //          svc.Devices() returns them. portkind: S = the scan port; O1,O2,.. = some other port of that host (a
 //          connection-counting listener is opened there); E = tcp info with an empty port; H = tcp info with an
 //          empty host; N = no tcp protocol at all
-// answer: "<returned|blocked> <elapsed_ms> reported=<name@ip,..> accepts=<ip=n,..> other=<ip/Ok=n,..>
+// answer: "<returned|blocked> <elapsed_ms> reported=<name@ip@vendorPEN@model@firmware,..> accepts=<ip=n,..> other=<ip/Ok=n,..>
 //          updated=<name:state,..> released=<bool>"
 func c17Run(f []string, devs *[]models.Device, devMu *sync.Mutex, updated *[]string) string {
 	async, _ := strconv.Atoi(f[2])
@@ -1019,7 +924,7 @@ func c17Run(f []string, devs *[]models.Device, devMu *sync.Mutex, updated *[]str
 			timeout: time.Duration(to) * time.Millisecond, scanPort: port})
 		var names []string
 		for _, d := range dd {
-			names = append(names, c17Hex([]byte(d.Name))+"@"+fmt.Sprint(d.Protocols["tcp"]["host"]))
+			names = append(names, c17Reported(d))
 		}
 		sort.Strings(names)
 		done <- names
@@ -1338,7 +1243,7 @@ drain:
 		case res := <-resultCh:
 			published++
 			for _, d := range res {
-				names = append(names, c17Hex([]byte(d.Name))+"@"+fmt.Sprint(d.Protocols["tcp"]["host"]))
+				names = append(names, c17Reported(d))
 			}
 		default:
 			break drain
@@ -1407,7 +1312,11 @@ func TestVerifC17(t *testing.T) {
 			wg.Add(1)
 			go func(i int, f []string) {
 				defer wg.Done()
-				answers[i] = c17Probe(f)
+				if c17ProbeFn == nil {
+					answers[i] = "unsupported probe-level harness not built"
+					return
+				}
+				answers[i] = c17ProbeFn(f)
 			}(i, f)
 		case "run":
 			runLines = append(runLines, i)
@@ -1468,7 +1377,11 @@ func TestVerifC17(t *testing.T) {
 					answers[j.i] = "harness-error listen " + err.Error()
 					continue
 				}
-				answers[j.i] = c17Name(j.f, h)
+				if c17NameFn == nil {
+					answers[j.i] = "unsupported probe-level harness not built"
+					continue
+				}
+				answers[j.i] = c17NameFn(j.f, h)
 			}
 			if h != nil {
 				h.Close()
